@@ -9,6 +9,7 @@ import (
 	"regexp"
 	"runtime"
 	"sort"
+	"strconv"
 	"strings"
 	"time"
 
@@ -82,6 +83,27 @@ func MatchFinding(prop string, notes []string, kind, msg string) *Finding {
 
 // Workers is the number of worker processes to use.
 func Workers() int {
+	if w, err := strconv.Atoi(os.Getenv("VERIF_WORKERS")); err == nil && w > 0 {
+		return w
+	}
+	// Measured in this sandbox (16 vCPUs): explorations that open, read and write files for every transition are
+	// fastest with about half the cores (6-10 workers: 47-51 s, 16 workers: 71 s for the same C04 run) - kernel paths
+	// do not scale here; CPU-bound schedule explorations use all cores (WorkersCPU).
+	n := runtime.NumCPU() / 2
+	if n > 8 {
+		n = 8
+	}
+	if n < 1 {
+		n = 1
+	}
+	return n
+}
+
+// WorkersCPU is the worker count for CPU-bound explorations (schedules, cursor sequences).
+func WorkersCPU() int {
+	if w, err := strconv.Atoi(os.Getenv("VERIF_WORKERS")); err == nil && w > 0 {
+		return w
+	}
 	n := runtime.NumCPU()
 	if n > 16 {
 		n = 16
